@@ -159,6 +159,7 @@ func runC01(c *fw.Ctx) {
 	e := NewEnv(c, o)
 	defer e.L.Cleanup()
 	e.Record = true
+	e.DupSignersPct = 40
 	g := NewGen(e)
 	var ref []blockRes
 	cur := blockRes{}
